@@ -809,3 +809,49 @@ func checkRedistributeLeavesItsInputAlone(c *core.Ctx, rule string) {
 	})
 	c.Check(n >= 2, rule, f.Name()+" field stores", f.Decl.Pos(), fmt.Sprintf("only %d found", n))
 }
+
+// listedFSMIsStarted: peer.stop() hands ManualStop to every FSM on peer.fsms and waits for each to finish.  An FSM on the
+// list whose goroutine was never started never takes the event: DisposePeer blocks for ever.  newPeer puts the active FSM
+// on the list under a condition; AddPeer starts it under a condition; the two must be the same condition (same
+// configuration switches with the same polarity).
+func listedFSMIsStarted(c *core.Ctx, rule string) {
+	np, ap := c.MustFunc(srv+".newPeer"), c.MustFunc(srv+".(*bgpServer).AddPeer")
+	if np == nil || ap == nil {
+		return
+	}
+	c.Analysed(np)
+	c.Analysed(ap)
+	cond := func(f *core.Fn, at ast.Node) map[string]bool {
+		m := map[string]bool{}
+		for _, ft := range core.CtlFactsAt(f, at) {
+			if ft.Expr == nil {
+				continue
+			}
+			e := core.Unparen(ft.Expr)
+			// configuration switches only (error exits above the site are not part of the condition)
+			if fv := core.FieldOf(f.Pkg, e); fv != nil {
+				m[strings.ToLower(fv.Name())] = ft.Truth
+			}
+		}
+		return m
+	}
+	var listed, started ast.Node
+	for _, call := range core.Calls(np.Pkg, np.Decl.Body, core.KeyIs(srv+".NewActiveFSM")) {
+		listed = call
+	}
+	for _, call := range core.Calls(ap.Pkg, ap.Decl.Body, core.KeyIs(srv+".(*peer).Start")) {
+		started = call
+	}
+	if !c.Check(listed != nil && started != nil, rule, "newPeer lists the active FSM, AddPeer starts it", np.Decl.Pos(), "NewActiveFSM in newPeer or peer.Start in AddPeer not found") {
+		return
+	}
+	a, b := cond(np, listed), cond(ap, started)
+	same := len(a) == len(b)
+	for k, v := range a {
+		if bv, ok := b[k]; !ok || bv != v {
+			same = false
+		}
+	}
+	c.Check(same, rule, "the active FSM is started under the condition it is listed under", started.Pos(),
+		fmt.Sprintf("newPeer puts the active FSM on peer.fsms under %v, AddPeer starts it under %v: an FSM can be on the list without a goroutine, and peer.stop() (DisposePeer, restart on reconfiguration) then blocks for ever handing it ManualStop", a, b))
+}
